@@ -7,7 +7,10 @@ TRUSTED = ['ENGINE-SPEC: the engine raises when it reads the missing-data code (
            '(formulas are finite trees); every implementation is verified against them',
            'assumed tail of LogLogit.audit (numpy checks after its early return): returns normally and only appends to its two lists '
            '(syntactic part: static obligation; numeric content: bounded harness)',
-           'assumed callees: IdManager.prepare, Expression.prepare, calculate_function_and_derivatives (compiled engine), Named*FunctionOutput.__init__',
+           'assumed callees: IdManager.prepare, Expression.prepare, calculate_function_and_derivatives (compiled engine; round 3: assumed to return one of the two '
+           'output proxy classes, backed by the static obligation C12:static:calculator-returns-output-proxies), Named*FunctionOutput.__init__; '
+           'round 3: the abstract contract of set_id_manager also says that the receiver stores the manager and that no node receives another manager '
+           '(verified for the base body of every family, Variable and catalogs; assumed for the leaves Beta / bioDraws / RandomVariable, whose bodies assign it first)',
            'round 2 (c12c): assumed pandas model of the data audit (df.dtypes.items() enumerates the columns once each in order; np.issubdtype(dtype, np.number) and '
            'df.isnull().values.any() are deterministic predicates; len(df.index) = number of rows); assumed callees Database._generate_headers (no refusal), '
            'Expression.get_value_c (engine; numpy float result), Database.get_sample_size; abstract contract of dict_of_elementary_expression (induction hypothesis); '
@@ -29,7 +32,13 @@ EXPLANATION = ('Deductive part: "wherever the fault sits" as structural inductio
                'outside the choice set), Database._audit / Database.__init__ (BiogemeError IFF no row, a non-numeric column or a NaN, over an assumed pandas model), '
                'BIOGEME._audit (BiogemeError IFF some formula has an audit error, misplaced draws or a misplaced random variable; every error collected), and '
                'dict_of_elementary_expression for every node class except bioLinearUtility (the names of a kind anywhere in the tree reach the numbering); static obligations '
-               'for the duplicate-name guard of IdManager.prepare and the verdict of the cross-nested check_validity.')
+               'for the duplicate-name guard of IdManager.prepare and the verdict of the cross-nested check_validity.  '
+               'Round 3 (m5, mutation-driven): get_value_and_derivatives is a raises-IFF (refused IFF one of the faults of the property, or the assumed numbering / '
+               'propagation / engine refuses: no false rejection); the propagation of an id manager stores it on every node it visits and hands no other manager down '
+               '(frame), catalogs included (refused IFF the selected member refuses); create_function refuses partially numbered formulas and otherwise leaves the formula '
+               'numbered; IdManager.__init__ asks for draws IFF some formula holds a MonteCarlo operator or a draw; Database.__init__ pins the initial state; a body that '
+               'returns None instead of its pair / set / dictionary fails its contract (was: out of subset).  The bounded harness gained the warning-only specifications '
+               '(chosen alternative unavailable, chained comparison, non-integer BelongsTo set, trajectory under MonteCarlo without database).')
 LEVEL_TEXT = ('Proof obligations for the audit descent, the placement collectors and the small own rules (all inputs); bounded fault enumeration on the real '
               'code for the entry points and the data / nest / missing-data faults; not a proof of the whole property.  Round 2: the nest audits, the data audit (assumed pandas '
               'model), BIOGEME._audit and the name collection are proof obligations too; the duplicate-name rule is a static obligation + bounded.')
@@ -71,7 +80,8 @@ def static_dispatch():
                 con = REGISTRY.contracts.get(fi.qualname)
                 if con is None or not con.verify or 'C12' not in con.props:
                     # set_id_manager of the other leaves only stores indices (no refusal): listed, not required
-                    if meth == 'set_id_manager' and fi.cls in ('Beta', 'bioDraws', 'RandomVariable', 'MultipleExpression'):
+                    # (round 3: the catalogs' propagation now has a verified contract: refused iff the selected member refuses)
+                    if meth == 'set_id_manager' and fi.cls in ('Beta', 'bioDraws', 'RandomVariable'):
                         continue
                     missing.append(f'override {fi.qualname} has no verified C12 contract')
     return Extra('C12:static:every-node-class-covered', 'static', 'failed' if missing else 'discharged', 'ast-static',
@@ -130,9 +140,67 @@ def static_logit_tail():
                  round(time.time() - t0, 3), f'{len(tail)} tail statements inspected; {bad[:5]}', {'problems': bad} if bad else None)
 
 
+OUTPUT_PROXIES = ('BiogemeFunctionOutputSmartOutputProxy', 'BiogemeDisaggregateFunctionOutputSmartOutputProxy')
+REPLAYS = {'C12:static:calculator-returns-output-proxies': '''
+import warnings; warnings.simplefilter('ignore')
+import pandas as pd
+from biogeme.database import Database
+from biogeme.expressions import Variable, Beta
+from biogeme.exceptions import BiogemeError
+db = Database('d', pd.DataFrame({'x': [1.0, 2.0]}))
+got = {}
+for agg in (True, False):
+    for named in (True, False):
+        try:
+            r = (Variable('x') * Beta('b', 1, None, None, 0)).get_value_and_derivatives(database=db, prepare_ids=True, aggregation=agg, named_results=named)
+            got[(agg, named)] = type(r).__name__
+        except BiogemeError as e:
+            got[(agg, named)] = 'BiogemeError: ' + str(e)[:60]
+violated = any(v.startswith('BiogemeError') for v in got.values())
+detail = f'(aggregation, named_results) -> outcome on a fault-free formula: {got}'
+'''}
+
+
+def static_calculator_returns():
+    """Backs the assumed contract of calculator.calculate_function_and_derivatives used by the raises-IFF of
+    get_value_and_derivatives (round 3): every value it returns is built by one of the two output proxy classes, which are
+    the kinds get_value_and_derivatives accepts (its `Unknown type` refusal is then unreachable).  An unrecognised shape is
+    reported `unknown` with a native replay, never `failed`."""
+    import ast
+    import time
+    from pyvc.driver import Extra
+    from pyvc.repo import get_repo
+    t0 = time.time()
+    name = 'C12:static:calculator-returns-output-proxies'
+    fi = get_repo().function('biogeme.expressions.calculator.calculate_function_and_derivatives')
+    if fi is None:
+        return Extra(name, 'static', 'unknown', 'ast-static', round(time.time() - t0, 3), 'function not found')
+    odd, n = [], 0
+    stack = list(fi.node.body)
+    while stack:           # returns of this function only (not of nested functions)
+        x = stack.pop()
+        if isinstance(x, (ast.FunctionDef, ast.AsyncFunctionDef, ast.Lambda, ast.ClassDef)):
+            continue
+        if isinstance(x, ast.Return):
+            n += 1
+            v = x.value
+            if not (isinstance(v, ast.Call) and isinstance(v.func, ast.Name) and v.func.id in OUTPUT_PROXIES):
+                odd.append(f'line {x.lineno}: returns `{ast.unparse(v) if v is not None else None}`')
+        stack.extend(ast.iter_child_nodes(x))
+    gv = get_repo().function('biogeme.expressions.base_expressions.Expression.get_value_and_derivatives')
+    accepted = {a.id for t in ast.walk(gv.node) if isinstance(t, ast.Call) and isinstance(t.func, ast.Name) and t.func.id == 'isinstance'
+                and len(t.args) == 2 for a in [t.args[1]] if isinstance(a, ast.Name)} if gv is not None else set()
+    for c in OUTPUT_PROXIES:
+        if c not in accepted:
+            odd.append(f'get_value_and_derivatives has no isinstance test for {c}')
+    status = 'discharged' if (n > 0 and not odd) else 'unknown'
+    return Extra(name, 'static', status, 'ast-static', round(time.time() - t0, 3),
+                 f'{n} return statements inspected; not recognised: {odd[:4]}', {'not_recognised': odd} if odd else None)
+
+
 def extra(tier, seed):
     from pyvc.bounded import run_native
-    out = [static_dispatch(), static_logit_tail()]
+    out = [static_dispatch(), static_logit_tail(), static_calculator_returns()]
     from specs import c12c_static       # round 2 (agent c12c)
     out += [c12c_static.names_dispatch(), c12c_static.cnl_validity(), c12c_static.duplicate_rule()]
     out.append(run_native('C12:bounded:fault-planting', 'c12_faults.py', [tier, str(seed)],
